@@ -24,6 +24,8 @@ func checkC06(c *Ctx) {
 	r.NotDecided = append(r.NotDecided, "the fixpoint itself for all accepted inputs (equality of runtime values); only slot/field/transform agreement and guardedness are structural")
 	c06CIDR(c)
 	c06Schema(c)
+	// a decoded option is re-emitted under the code it was parsed under (shared with C02-K1)
+	e1ParserTables(c, "C06-K6")
 	c06Narrowing(c)
 }
 
